@@ -109,6 +109,13 @@ def check(run):
     run.assumptions += ["streams are well-formed (the property's premise); resynchronisation on garbage is not judged",
                         "reads are at most 1024 bytes (the size of the read buffer)"]
 
+    # end-to-end segment: the real jet1090 binary over loopback TCP, judged by Trace_Pipeline for the
+    # clauses of Pipeline.tla that restate this property through main.rs's wiring (see _e2e.py)
+    from . import _e2e
+    n_e2e = 40 if run.tier == "thorough" else 6
+    if n_e2e:
+        _e2e.segment(run, n_e2e)
+
 
 def replay(run, path):
     check(run)
